@@ -44,12 +44,31 @@ def atoms(cond, outcome):
     return out
 
 
+def _expand_local_flags(fn, ats, depth=0):
+    """a test of a const local flag (`const bool fresh = a == b; if ( fresh )`) also tells what its initialiser says, provided the
+    initialiser reads only locals/parameters/constants that are not written after the declaration"""
+    out = []
+    for l, op, r in ats:
+        if depth < 3 and isinstance(r, int) and r == 0 and op in ('!=', '==') and not isinstance(l, int) and l.k in REF_KINDS and l.d.get('local'):
+            ds = fn.body.find(lambda n: n.k == 'VarDecl' and n.n == l.n)
+            if len(ds) == 1 and ds[0].c and (ds[0].t or '').startswith('const'):
+                init = strip_casts(ds[0].c[0])
+                names = {x.n for x in init.walk() if x.k in REF_KINDS and x.v is None and x.d.get('dk') != 'Function' and x.d.get('r') != 'callee'}
+                pure = all(x.d.get('local') or x.v is not None or x.d.get('dk') in ('Function', 'EnumConstant') or x.d.get('r') == 'callee' for x in init.walk() if x.k in REF_KINDS) and not any(x.d.get('call') for x in init.walk())
+                written = any(target_name(tgt) in names and st.l >= ds[0].l for tgt, o2, val, st in stores(fn.body))
+                if pure and not written and init.k in ('BinaryOperator', 'UnaryOperator', 'ParenExpr'):
+                    ex = atoms(init, op == '!=')
+                    out.extend(ex)
+                    out.extend(_expand_local_flags(fn, ex, depth + 1))
+    return out
+
+
 def guard_atoms(fn, node):
     res = []
     for cond, outcome in fn.guards(node):
         if isinstance(outcome, bool):
             res.extend(atoms(cond, outcome))
-    return res
+    return res + _expand_local_flags(fn, res)
 
 
 def cval(n):
